@@ -171,3 +171,69 @@ Proof.
     + rewrite Rabs_pos_eq in * by lra. lra.
   - exact P_C03.obj_factor_example.
 Qed.
+
+(** * The tie of the pseudo-spectral relations to the SOURCE TEXT (proofs in P_C03_loop)
+    [gen_w_pseudo], [gen_w_pseudo_lead0], [gen_w_placeholder], [gen_psv], [gen_psa], [gen_cut_threshold],
+    [gen_cut_factor], [gen_cut_cond] (and the gen_true_cut_ ones) are the scalar readings of
+    `w = 2 * np.pi / periods` (both branches), `svs = w * sds`, `sas = w ** 2 * sds` and
+    `np.where(periods < dt * 6, absmax(motion), sas)` of eqsig/sdof.py:pseudo_response_spectra / true_response_spectra,
+    re-extracted with Python `ast` on every run (translator/py2coq_sdof_loop.py -> gen/Gen_sdof_loop.v). The translator
+    also checks structurally that S_d = absmax(<first returned rows>, axis=1) and that the true spectra are absmax of
+    the (u, v, a) rows in this order. Theorems for all arguments; a changed operand, power, literal or comparison in
+    the source breaks them.
+    Still NOT proved / only by correspondence: that the numpy statements mean these readings entry by entry
+    (broadcasting, np.where semantics), sdof.absmax itself (the model's [absmax] is tied by correspondence), and
+    floating point. *)
+From EQ Require Import gen.Gen_sdof_loop proofs.P_C03_loop.
+
+(** entry i of pseudo_response_spectra stated entirely with the generated definitions (pi2 := 2 PI) *)
+Theorem C03_pseudo_relations_are_source : forall dt (periods motion : list R) resp i,
+  length resp = length periods -> (i < length periods)%nat ->
+  let '(sds, svs, sas) := pseudo_spectra (2 * PI) dt periods motion resp in
+  let w := if Reqb (nth 0 periods 0) 0
+           then (if Nat.eqb i 0 then gen_w_placeholder else gen_w_pseudo_lead0 (nth i periods 0))
+           else gen_w_pseudo (nth i periods 0) in
+  let sd := absmax (fst (fst (nth i resp ([], [], [])))) in
+  nth i sds 0 = sd /\ nth i svs 0 = gen_psv w sd /\
+  (gen_cut_cond (nth i periods 0) dt -> nth i sas 0 = absmax motion) /\
+  (~ gen_cut_cond (nth i periods 0) dt -> nth i sas 0 = gen_psa w sd).
+Proof. exact P_C03_loop.pseudo_relations_are_source. Qed.
+
+(** the pieces: the model's map2 functions are the source lines, the model's w is the source's w *)
+Theorem C03_pseudo_lines_are_source : forall w sd P : R,
+  nmul w sd = gen_psv w sd /\ (w * w) * sd = gen_psa w sd /\
+  gen_w_pseudo P = 2 * PI / P /\ gen_w_pseudo_lead0 P = 2 * PI / P /\ gen_w_placeholder = 1.
+Proof.
+  intros w sd P. split; [apply P_C03_loop.psv_is_source|]. split; [apply P_C03_loop.psa_is_source|].
+  destruct (P_C03_loop.w_pseudo_is_source P) as [E1 E2]. split; [exact E1|]. split; [exact E2|].
+  exact P_C03_loop.w_placeholder_is_source.
+Qed.
+
+(** cut: the model's test `T <? dt * 6` is the source's comparison, the factor is the source's literal 6, and entry i of
+    [pga_cut] is np.where(cond, absmax(motion), sas) *)
+Theorem C03_cut_is_source : gen_cut_factor = 6 /\
+  (forall P dt, gen_cut_threshold dt = dt * gen_cut_factor /\ (Rltb P (dt * 6) = true <-> gen_cut_cond P dt)) /\
+  forall dt (periods motion sas : list R) i, length sas = length periods -> (i < length periods)%nat ->
+    (gen_cut_cond (nth i periods 0) dt -> nth i (pga_cut dt periods motion sas) 0 = absmax motion) /\
+    (~ gen_cut_cond (nth i periods 0) dt -> nth i (pga_cut dt periods motion sas) 0 = nth i sas 0).
+Proof.
+  split; [exact P_C03_loop.cut_factor_is_source|]. split.
+  - intros P dt. split; [apply (P_C03_loop.cut_threshold_is_source dt) | apply P_C03_loop.cut_cond_is_source].
+  - exact P_C03_loop.pga_cut_is_source.
+Qed.
+
+(** the same np.where in true_response_spectra *)
+Theorem C03_true_cut_is_source : forall dt (periods motion : list R) resp i,
+  length resp = length periods -> (i < length periods)%nat ->
+  (gen_true_cut_factor = 6 /\ gen_true_cut_threshold dt = dt * gen_true_cut_factor) /\
+  let '(sds, svs, sas) := true_spectra dt periods motion resp in
+  (gen_true_cut_cond (nth i periods 0) dt -> nth i sas 0 = absmax motion) /\
+  (~ gen_true_cut_cond (nth i periods 0) dt -> nth i sas 0 = absmax (snd (nth i resp ([], [], [])))).
+Proof.
+  intros dt periods motion resp i Hl Hi. split; [apply P_C03_loop.true_cut_factor_is_source|].
+  exact (P_C03_loop.true_cut_is_source dt periods motion resp i Hl Hi).
+Qed.
+
+(** non-vacuity of the cut on both sides: T = 1/20 < 6 * (1/100) is substituted, T = 1 is not *)
+Example C03_cut_nonvacuous : gen_cut_cond (1 / 20) (1 / 100) /\ ~ gen_cut_cond 1 (1 / 100).
+Proof. unfold gen_cut_cond, gen_cut_threshold. split; lra. Qed.
